@@ -25,6 +25,11 @@ SPEC (a dict; everything the source does not say itself)
   raise_state  False: an exception discards the attribute writes (a constructor: the object is never seen) — the result
             is `Except Err St` instead of `Res St α`
   drop_calls   call statements the spec declares outside the model (`super().__init__(src_packet)`)
+  drop_stmts   statements (by the start of their text) the spec declares outside the model: they only build a logging string
+  log_effects  True: logging / print calls are not dropped: their arguments are evaluated for the exceptions they raise
+  obj_methods  {(type, method): {lean, args, ret, raises}}: a method of an opaque object a local holds, as an external function
+  split_loops  True: the round of a pure `for` fold becomes a definition of its own (`<name>.loop<k>`)
+  instances    opaque types whose values are classes a local holds: calling such a local (`mac()`) is the value itself
   calls     {python function name: {lean, args, ret, raises}}   other translated functions this one calls
   fuel      {start of a `while` statement: python expression}   an upper bound of its rounds (see `PyRt.whileS`)
   externals [(lean name, lean type)]   functions outside the model (`cryptography`, dpkt …): leading parameters of the
@@ -32,6 +37,18 @@ SPEC (a dict; everything the source does not say itself)
   ctors     {class name: {type, fields: [(keyword, type)], consts, ignore}}   keyword-only constructor calls as records
   objects   parameter names that are objects only read/written through places (`return x, obj` returns `x`)
   exits     True: the value of the definition is how the fragment was left (`PyRt.Exit`: fall / cont / brk / ret)
+  state     {type, param}: the attribute state is ONE record the spec declares elsewhere (a family of methods that call
+            each other): places of mode "s" are its fields, the definition takes it as its last parameter and returns it
+  always_res  True: the result is `PyRt.Res state α` even if nothing in the body can raise (uniform for callers)
+  tparams   type parameters of the definition (`{δ : Type}`): opaque types its spec types mention
+  state_calls  {python callee text: entry}: calls that pass the state on (statement, or whole right-hand side):
+              kind "shared": another definition over the same state record (lean, exts, args, rplaces, ret)
+              kind "method": a method of an object held in an `Option` place (recv, lean, args, ret): AttributeError on None,
+                             the external `lean : X → args → PyRt.Res X ret` returns the object afterwards
+              kind "ext":    a method outside the model that reads / writes the listed places (lean, args, reads, writes, ret)
+  maybe_attrs  places of type `Option T` that stand for attributes which may not exist yet: a read is AttributeError on `none`
+  pairdicts {place: default literal}: a dict keyed by a bool that is only read through `.get(k, default)`: the pair of
+            its values at False / True (absent = default)
 types: Int, Nat (an int known to be ≥ 0), Bool, Bytes, List T, Set T (a Python set; only `in` and `|` under `in`),
        Option T, Dict K V, anything else = an opaque type with decidable equality (only == != and assignment).
 """
@@ -90,10 +107,10 @@ def ind(s, n=2):
 
 class V:
     """a translated expression or variable: Lean term, type, known non-negative (ints)"""
-    __slots__ = ("term", "typ", "nn", "lit")
+    __slots__ = ("term", "typ", "nn", "lit", "parts")
 
-    def __init__(self, term, typ, nn=False, lit=None):
-        self.term, self.typ, self.nn, self.lit = term, typ, nn or typ == "Nat", lit
+    def __init__(self, term, typ, nn=False, lit=None, parts=None):
+        self.term, self.typ, self.nn, self.lit, self.parts = term, typ, nn or typ == "Nat", lit, parts
 
     def __repr__(self):
         return f"V({self.term}:{self.typ})"
@@ -113,10 +130,18 @@ def elem_type(t):
 TYPE_ALIAS = {"Str": "List Nat"}           # spec types that are names for Lean types (a spec may add its own: `types`)
 
 
+class RawType(str):
+    """a type given as Lean text (the type of an external function)"""
+
+
 def ty(t):
     """Lean spelling of a spec type"""
+    if isinstance(t, RawType):
+        return str(t)
     if t in TYPE_ALIAS:
         return TYPE_ALIAS[t]
+    if t == "Acc":
+        return "PyRt.Acc"
     if t.startswith("Fmt:"):
         return "List PyRt.Fld"
     if t.startswith("Tup:"):
@@ -211,6 +236,10 @@ class Translator:
         self.synthetic = set()
         self.owned = set()
         self.seen_types = {}
+        self.state = spec.get("state")
+        self.state_calls = dict(spec.get("state_calls", {}))
+        self.maybe_attrs = set(spec.get("maybe_attrs", ()))
+        self.pairdicts = dict(spec.get("pairdicts", {}))
         TYPE_ALIAS.clear()
         TYPE_ALIAS.update({"Str": "List Nat"})
         TYPE_ALIAS.update(spec.get("types", {}))
@@ -271,6 +300,17 @@ class Translator:
                 return f"(Sum.inr {v.term} : {ty(typ)})"
         if v.typ == "EmptyList" and typ.startswith("List "):
             return f"([] : {ty(typ)})"
+        if ("×" in typ and "×" in v.typ and not typ.startswith(("List ", "Option ", "Table ", "Set ", "Dict "))
+                and not v.typ.startswith(("List ", "Option ", "Table ", "Set ", "Dict "))):
+            want, have = split_prod(typ), split_prod(v.typ)
+            if len(want) == len(have):
+                # a tuple display (or value) whose components are coerced one by one
+                parts = []
+                for j, (w, h) in enumerate(zip(want, have)):
+                    proj = v.term + ".2" * j + (".1" if j < len(have) - 1 else "")
+                    comp = v.parts[j] if v.parts is not None and len(v.parts) == len(have) else V(f"({proj})", unparen(h))
+                    parts.append(self.coerce(comp, unparen(w), node))
+                return "(" + ", ".join(parts) + ")"
         if v.typ == "EmptyDict" and typ in self.spec.get("empty_dict", {}):
             return self.spec["empty_dict"][typ]
         self.bad(node, f"type {v.typ} where {typ} is expected")
@@ -282,18 +322,29 @@ class Translator:
             term, typ = self.consts[k]
             return V(term, typ)
         if k in self.places:
+            if k in self.pairdicts:
+                self.bad(node, "a bool-keyed dict place read other than through `.get(key, default)`")
             return self.read_place(k, env, node)
         m = getattr(self, "e_" + type(node).__name__, None)
         if m is None:
             self.bad(node, f"expression form {type(node).__name__} is outside the subset")
         return m(node, env)
 
-    def read_place(self, k, env, node):
-        v = env.get(("place", k))
-        if v is None:
-            self.bad(node, "place is not bound here")
-        if getattr(v, "initial", False) or v.term == self.places[k][1]:
-            self.init_used.add(k)
+    def read_place(self, k, env, node, raw=False):
+        _, ln, typ, mode = self.places[k]
+        if mode == "s":
+            v = V(f"{env['__st'].term}.{lname(ln)}", typ)
+        else:
+            v = env.get(("place", k))
+            if v is None:
+                self.bad(node, "place is not bound here")
+            if getattr(v, "initial", False) or v.term == self.places[k][1]:
+                self.init_used.add(k)
+        if k in self.maybe_attrs and not raw:
+            if not typ.startswith("Option "):
+                self.bad(node, "a maybe-attribute place whose type is not Option")
+            inner = elem_type(typ)
+            return V(self.hoist(f"PyRt.attrE {v.term}", inner, node), inner)
         return V(v.term, v.typ, v.nn)
 
     def e_Constant(self, node, env):
@@ -314,6 +365,10 @@ class Translator:
 
     def e_Name(self, node, env):
         v = env.get(node.id)
+        if v is not None and node.id in self.spec.get("maybe_locals", {}):
+            # a local that a loop may or may not have assigned: `none` = unbound (UnboundLocalError when read)
+            t = self.spec["maybe_locals"][node.id]
+            return V(self.hoist(f"PyRt.unboundE {v.term}", t, node), t)
         known = self.seen_types.get(node.id, self.spec.get("locals", {}).get(node.id))
         if (v is None and node.id in getattr(self, "assigned_anywhere", ()) and ("maybe", node.id) not in env
                 and known is not None):
@@ -330,13 +385,19 @@ class Translator:
             f = self.spec.get("attr_funcs", {}).get((x.typ, node.attr))
             if f is not None:
                 return V(f"({f[0]} {x.term})", f[1])
+        elif self.spec.get("attr_funcs") and not isinstance(node.value, ast.Name):
+            x = self.expr(node.value, env)
+            f = self.spec["attr_funcs"].get((x.typ, node.attr))
+            if f is not None:
+                return V(f"({f[0]} {x.term})", f[1])
         self.bad(node, "attribute read that the spec does not list as a place or constant")
 
     def e_Tuple(self, node, env):
         els = [self.expr(e, env) for e in node.elts]
         if len(els) < 2 or any(e.typ in ("NoneType", "EmptyDict", "EmptyList") for e in els):
             self.bad(node, "tuple display with fewer than two elements or an element of unknown type")
-        return V("(" + ", ".join(e.term for e in els) + ")", " × ".join(e.typ if " " not in e.typ else f"({e.typ})" for e in els))
+        return V("(" + ", ".join(e.term for e in els) + ")", " × ".join(e.typ if " " not in e.typ else f"({e.typ})" for e in els),
+                 parts=els)
 
     def e_List(self, node, env):
         if not node.elts:
@@ -347,10 +408,50 @@ class Translator:
             t = self.join_type(t, e.typ, node)
         return V("[" + ", ".join(self.coerce(e, t, node) for e in els) + "]", f"List {t}" if " " not in t else f"List ({t})")
 
+    def e_ListComp(self, node, env):
+        """`[e for x in it]` (one generator, no condition, an element expression that cannot raise)"""
+        if len(node.generators) != 1 or node.generators[0].ifs or node.generators[0].is_async:
+            self.bad(node, "list comprehension with several generators or a condition")
+        g = node.generators[0]
+        saved = self.hoists
+        self.hoists = []
+        try:
+            lst, bound, hs = self.loop_iter(g, env)
+            if hs or self.hoists:
+                self.bad(node, "a list comprehension whose iterable may raise")
+        finally:
+            self.hoists = saved
+        env2 = dict(env)
+        for n, t, nn in bound:
+            env2[n] = V(lname(n), t, nn)
+        e = self.strict(lambda: self.expr(node.elt, env2))
+        ety = " × ".join(ty_arg(t) if " " in ty(t) else ty(t) for _, t, _ in bound)
+        if len(bound) == 1:
+            fn = f"(fun ({lname(bound[0][0])} : {ety}) => {e.term})"
+        else:
+            pre = " ".join(f"let {lname(n)} : {ty(t)} := py_i" + ".2" * k + (".1" if k < len(bound) - 1 else "") + ";"
+                           for k, (n, t, _) in enumerate(bound))
+            fn = f"(fun (py_i : {ety}) => {pre} {e.term})"
+        rt = e.typ if " " not in e.typ else f"({e.typ})"
+        return V(f"(List.map {fn} {lst})", f"List {rt}")
+
     def e_Dict(self, node, env):
-        if node.keys:
-            self.bad(node, "non-empty dict literal")
-        return V("{}", "EmptyDict")
+        if not node.keys:
+            return V("{}", "EmptyDict")
+        if any(k is None for k in node.keys):
+            self.bad(node, "dict display with `**`")
+        ks = [self.expr(k, env) for k in node.keys]
+        vs = [self.expr(v, env) for v in node.values]        # (Python evaluates key, value, key, value …: nothing here may raise)
+        if any(k.typ != ks[0].typ or k.lit is None for k in ks):
+            self.bad(node, "dict display whose keys are not literals of one type")
+        vt = vs[0].typ
+        for v in vs[1:]:
+            vt = self.join_type(vt, v.typ, node)
+        if vt in ("NoneType", "EmptyDict", "EmptyList"):
+            self.bad(node, "dict display whose values have no known type")
+        ents = ", ".join(f"({k.term}, {self.coerce(v, vt, node)})" for k, v in zip(ks, vs))
+        vts = vt if " " not in vt else f"({vt})"
+        return V(f"([{ents}] : List ({ty_arg(ks[0].typ)} × {ty_arg(vt)}))", f"Table {ks[0].typ}; {vts}")
 
     def arith(self, node, a, b, natop, intop, nn):
         """both Nat → the Nat operation; else the Int operation on casts"""
@@ -437,6 +538,11 @@ class Translator:
         b = self.expr(node.right, env)
         if op == "Add" and a.typ == "Bytes" and b.typ == "Bytes":
             return V(f"({a.term} ++ {b.term})", "Bytes")
+        if op == "Mult" and ((is_int(a.typ) and b.typ in ("Str", "Bytes")) or (a.typ in ("Str", "Bytes") and is_int(b.typ))):
+            n, x = (a, b) if is_int(a.typ) else (b, a)
+            return V(f"(PyRt.repeatSeq {self.to_int(n)} {x.term})", x.typ)          # a count ≤ 0 gives the empty sequence
+        if op == "Div" and a.typ == "Layers" and b.typ == "Layers":
+            return V(f"({a.term} ++ {b.term})", "Layers")            # scapy: `/` stacks the layers
         if op == "BitOr" and a.typ.startswith("Set ") and a.typ == b.typ:
             return V(f"({a.term} ++ {b.term})", a.typ)        # a list standing for the set; a set is only ever asked `in`
         if not (is_int(a.typ) and is_int(b.typ)):
@@ -544,6 +650,8 @@ class Translator:
                 return f"({neg}({a.term}).isNone)"
             if b.typ == "Bool" and a.typ == "Bool" and b.term in ("true", "false"):
                 return f"({neg}decide ({a.term} = {b.term}))"
+            if b.typ == "NoneType" and a.typ not in ("NoneType", "EmptyDict", "EmptyList") and not a.typ.startswith("Option "):
+                return "true" if o == "IsNot" else "false"          # the spec types this value as never None
             self.bad(node, f"`is` between {a.typ} and {b.typ}")
         if o in ("Eq", "NotEq"):
             rel = "=" if o == "Eq" else "≠"
@@ -557,6 +665,8 @@ class Translator:
                 return f"(decide ({a.term} {rel} {self.coerce(b, a.typ, node)}))"
             if "|" in b.typ and is_int(a.typ):
                 return f"(decide ({self.coerce(a, b.typ, node)} {rel} {b.term}))"
+            if (a.typ == "Bytes" and is_int(b.typ)) or (is_int(a.typ) and b.typ == "Bytes"):
+                return "false" if o == "Eq" else "true"          # bytes / bytearray and int: never equal
             if is_int(a.typ) and is_int(b.typ):
                 if a.typ == b.typ:
                     return f"(decide ({a.term} {rel} {b.term}))"
@@ -676,10 +786,19 @@ class Translator:
             proj = x.term + ".2" * j + (".1" if j < len(parts) - 1 else "")
             return V(f"({proj})", unparen(parts[j]))
         i = self.expr(node.slice, env)
+        if x.typ == "Str":
+            if not is_int(i.typ):
+                self.bad(node, f"index of type {i.typ}")
+            return V(self.hoist(f"PyRt.strItemE {x.term} {self.to_int(i)}", "Str", node), "Str")
         if x.typ == "Bytes":
             if not is_int(i.typ):
                 self.bad(node, f"index of type {i.typ}")
             return V(self.hoist(f"PyRt.getItem {x.term} {self.to_int(i)}", "Nat", node), "Nat", True)
+        if x.typ.startswith("List "):
+            if not is_int(i.typ):
+                self.bad(node, f"index of type {i.typ}")
+            et = elem_type(x.typ)
+            return V(self.hoist(f"PyRt.listItemE {x.term} {self.to_int(i)}", et, node), et)
         if x.typ.startswith("Table "):
             kt, vt = split_table(x.typ)
             return V(self.hoist(f"PyRt.tableGetE {x.term} {self.coerce(i, kt, node)}", vt, node), vt)
@@ -713,12 +832,66 @@ class Translator:
             if a.typ == "Bytes" and b.typ == "Bytes":
                 return V(f"(PyRt.zipBytes {a.term} {b.term})", "List (Nat × Nat)")
             self.bad(node, f"zip of {a.typ} and {b.typ}")
+        if isinstance(f, ast.Name) and f.id in env and env[f.id].typ in self.spec.get("instances", ()) and not node.args and not kw:
+            return env[f.id]                     # instantiating a class held in a local: the instance is named like its class
+        if (isinstance(f, ast.Attribute) and f.attr == "finalize" and not node.args and not kw and isinstance(f.value, ast.Name)
+                and f.value.id in env and env[f.value.id].typ == "Acc"):
+            x = env[f.value.id]
+            # (a second `finalize` / a later `update` raises AlreadyFinalized: the object is not usable afterwards)
+            env[f.value.id] = V(x.term, "Finalized")
+            return V(f"(PyRt.Acc.finalize {x.term})", "Bytes")
+        if (isinstance(f, ast.Attribute) and isinstance(f.value, ast.Call)
+                and self.key(f.value.func) + "." + f.attr in self.spec.get("calls", {})):
+            # `Class(a, …).method(b, …)` the spec names as one external function of (a, …, b, …)
+            c = self.spec["calls"][self.key(f.value.func) + "." + f.attr]
+            cpar, mpar = c.get("params", ([], []))
+            order = list(cpar) + list(mpar)
+            given = list(f.value.args) + list(node.args)
+            if kw or [k for k in f.value.keywords]:
+                if not order or len(f.value.args) > len(cpar) or len(node.args) > len(mpar):
+                    self.bad(node, f"call of `{self.key(f.value.func)}(…).{f.attr}` with keywords the spec has no parameter names for")
+                pos = {cpar[i]: a for i, a in enumerate(f.value.args)}
+                pos.update({mpar[i]: a for i, a in enumerate(node.args)})
+                pos.update({k.arg: k.value for k in f.value.keywords})
+                pos.update(kw)
+                if set(pos) != set(order):
+                    self.bad(node, f"call of `{self.key(f.value.func)}(…).{f.attr}` that does not give exactly the parameters {order}")
+                given = [pos[n_] for n_ in order]
+            if len(given) != len(c["args"]):
+                self.bad(node, f"call of `{self.key(f.value.func)}(…).{f.attr}` with {len(given)} arguments, the spec knows {len(c['args'])}")
+            args = [None if t is None else self.coerce(self.expr(a, env), t, node) for a, t in zip(given, c["args"])]
+            for a, t in zip(given, c["args"]):
+                if t is None and not isinstance(a, ast.Constant):
+                    self.bad(a, "an ignored argument that is not a literal")
+            term = f"{c['lean']} " + " ".join(a for a in args if a is not None)
+            if c.get("raises"):
+                return V(self.hoist(term, c["ret"], node), c["ret"])
+            return V(f"({term})", c["ret"])
+        if fname == "bytes" and len(node.args) == 2 and not kw and isinstance(node.args[1], ast.Constant) and node.args[1].value == "utf-8":
+            x = self.expr(node.args[0], env)
+            if x.typ != "Str":
+                self.bad(node, f"bytes(…, 'utf-8') of {x.typ}")
+            return V(self.hoist(f"PyRt.utf8E {x.term}", "Bytes", node), "Bytes")        # UnicodeEncodeError (a ValueError) on surrogates
+        if fname in ("bytes", "bytearray") and len(node.args) == 1 and not kw and isinstance(node.args[0], ast.ListComp):
+            lc = self.expr(node.args[0], env)
+            et = elem_type(lc.typ)
+            if not is_int(et):
+                self.bad(node, f"{fname}() of a list of {et}")
+            lst = lc.term if et == "Int" else f"(List.map Int.ofNat {lc.term})"
+            return V(self.hoist(f"PyRt.bytesOfE {lst}", "Bytes", node), "Bytes")
         if fname == "bytes" and len(node.args) == 1 and not kw and isinstance(node.args[0], ast.List):
             els = [self.expr(e, env) for e in node.args[0].elts]
             if not all(is_int(e.typ) for e in els):
                 self.bad(node, "bytes([…]) of elements that are not ints")
             lst = "[" + ", ".join(self.to_int(e) for e in els) + "]"
             return V(self.hoist(f"PyRt.bytesOfE {lst}", "Bytes", node), "Bytes")          # ValueError outside range(256)
+        if (fname in ("floor", "math.floor") and len(node.args) == 1 and not kw and isinstance(node.args[0], ast.BinOp)
+                and isinstance(node.args[0].op, ast.Div) and any(n == "fdivfloor" for n, _ in self.spec.get("externals", ()))):
+            # `floor(a / b)`: a float division — the external `fdivfloor a b` (ZeroDivisionError inside it)
+            a, b = self.expr(node.args[0].left, env), self.expr(node.args[0].right, env)
+            if not (is_int(a.typ) and is_int(b.typ)):
+                self.bad(node, f"floor(a / b) on {a.typ}, {b.typ}")
+            return V(self.hoist(f"fdivfloor {self.to_int(a)} {self.to_int(b)}", "Int", node), "Int")
         if fname == "bool" and len(node.args) == 1 and not kw:
             x = self.expr(node.args[0], env)
             if x.typ == "Bool":
@@ -728,11 +901,39 @@ class Translator:
             if x.typ == "Bytes" or x.typ.startswith("List "):
                 return V(f"(!(List.isEmpty {x.term}))", "Bool")
             self.bad(node, f"bool() of {x.typ}")
+        if fname in ("bytes", "bytearray") and not node.args and not kw:
+            return V("([] : Bytes)", "Bytes")
+        if isinstance(f, ast.Attribute) and f.attr == "hex" and not node.args and not kw:
+            x = self.expr(f.value, env)
+            if x.typ == "Option Bytes":
+                x = V(self.hoist(f"PyRt.attrE {x.term}", "Bytes", node), "Bytes")          # None has no hex
+            if x.typ != "Bytes":
+                self.bad(node, f"hex() of {x.typ}")
+            return V(f"(PyRt.hexStr {x.term})", "Str")
+        om = self.spec.get("obj_methods", {})
+        if (isinstance(f, ast.Attribute) and isinstance(f.value, ast.Name) and not kw
+                and (self.seen_types.get(f.value.id, self.spec.get("locals", {}).get(f.value.id)), f.attr) in om):
+            recv = self.expr(f.value, env)             # (UnboundLocalError when no statement on this path has assigned it)
+            c = om[(recv.typ, f.attr)]
+            if len(node.args) != len(c["args"]):
+                self.bad(node, f"`.{f.attr}` with {len(node.args)} arguments, the spec knows {len(c['args'])}")
+            args = [self.coerce(self.expr(a, env), t, node) for a, t in zip(node.args, c["args"])]
+            term = " ".join([c["lean"], recv.term] + args)
+            if c.get("raises"):
+                return V(self.hoist(term, c["ret"], node), c["ret"])
+            return V(f"({term})", c["ret"])
+        if isinstance(f, ast.Attribute) and f.attr == "encode" and not node.args and not kw:
+            x = self.expr(f.value, env)
+            if x.typ != "Str":
+                self.bad(node, f"encode() of {x.typ}")
+            return V(self.hoist(f"PyRt.utf8E {x.term}", "Bytes", node), "Bytes")
         if fname in ("bytes", "bytearray", "copy.deepcopy") and len(node.args) == 1 and not kw:
             # a bytes-like VALUE: the copy is the same value (mutation is only translated for locals this function created)
             x = self.expr(node.args[0], env)
             if x.typ == "Bytes":
                 return V(x.term, "Bytes")
+            if is_int(x.typ) and fname != "copy.deepcopy":
+                return V(self.hoist(f"PyRt.zerosE {self.to_int(x)}", "Bytes", node), "Bytes")      # `bytes(n)`: n zero bytes, ValueError for n < 0
             self.bad(node, f"{fname}() of {x.typ}")
         if fname == "int" and not kw:
             if len(node.args) == 1:
@@ -746,7 +947,26 @@ class Translator:
                 except Exception as e:
                     self.bad(node, f"int() on literals raises {e!r}")
                 return self.e_Constant(ast.Constant(value=val), env)
-        if fname == "bytes.fromhex" and len(node.args) == 1 and isinstance(node.args[0], ast.Constant) and not kw:
+        if (isinstance(f, ast.Attribute) and f.attr == "get" and len(node.args) == 2 and not kw
+                and self.key(f.value) in self.pairdicts):
+            pk = self.key(f.value)
+            dflt = ast.unparse(ast.parse(self.pairdicts[pk], mode="eval").body)
+            if ast.unparse(node.args[1]) != dflt:
+                self.bad(node, f"`.get` on a bool-keyed dict place with a default other than {dflt}")
+            kx = self.expr(node.args[0], env)
+            if kx.typ != "Bool":
+                self.bad(node, f"key of type {kx.typ} for a bool-keyed dict place")
+            p = self.read_place(pk, env, node)
+            return V(f"(if {kx.term} then {p.term}.2 else {p.term}.1)", unparen(split_prod(p.typ)[0]))
+        if isinstance(f, ast.Attribute) and f.attr == "rstrip" and len(node.args) == 1 and not kw:
+            x = self.expr(f.value, env)
+            if x.typ == "Option Bytes":
+                x = V(self.hoist(f"PyRt.attrE {x.term}", "Bytes", node), "Bytes")      # None has no rstrip
+            a = self.expr(node.args[0], env)
+            if x.typ != "Bytes" or a.typ != "Bytes":
+                self.bad(node, f"rstrip on {x.typ} with {a.typ}")
+            return V(f"(PyRt.rstrip {x.term} {a.term})", "Bytes")
+        if fname in ("bytes.fromhex", "bytearray.fromhex") and len(node.args) == 1 and isinstance(node.args[0], ast.Constant) and not kw:
             try:
                 return self.e_Constant(ast.Constant(value=bytes.fromhex(node.args[0].value)), env)
             except Exception as e:
@@ -804,6 +1024,19 @@ class Translator:
                 self.bad(node, "an ignored argument that is not a plain name")
             return V(self.hoist(f"PyRt.callClass {c.term} (fun py_c => {cc['lean']} py_c " + " ".join(args) + ")", cc["ret"], node), cc["ret"])
         ctors = self.spec.get("ctors", {})
+        if fname in ctors and node.args and "positional" in ctors[fname] and set(kw) <= set(ctors[fname].get("ignore_kw", ())):
+            # `Class(a, b, c)`: the spec names the field each position fills (None: a literal argument outside the model)
+            c = ctors[fname]
+            if len(node.args) != len(c["positional"]):
+                self.bad(node, f"`{fname}` called with {len(node.args)} arguments, the spec knows {len(c['positional'])}")
+            out = list(c.get("consts", []))
+            for a, (fld, t) in zip(node.args, c["positional"]):
+                if fld is None:
+                    if not isinstance(a, (ast.Constant, ast.Name)):
+                        self.bad(a, "an ignored constructor argument that is not a literal or a plain name")
+                    continue
+                out.append(f"{fld} := {self.coerce(self.expr(a, env), t, a)}")
+            return V("({ " + ", ".join(out) + " } : " + c["type"] + ")", c["type"])
         if fname in ctors and not node.args:
             c = ctors[fname]
             fields = dict(c["fields"])
@@ -840,6 +1073,12 @@ class Translator:
             if c.get("raises"):
                 return V(self.hoist(term, c["ret"], node), c["ret"])
             return V(f"({term})", c["ret"])
+        if fname in calls and not kw and "fmt" in calls[fname]:
+            c = calls[fname]
+            if len(node.args) != len(c["args"]):
+                self.bad(node, f"call of `{fname}` with {len(node.args)} arguments, the spec knows {len(c['args'])}")
+            args = [self.coerce(self.expr(a, env), t, node) for a, t in zip(node.args, c["args"])]
+            return V(c["fmt"].format(*args), c["ret"])
         if fname in calls and not kw:
             c = calls[fname]
             if len(node.args) != len(c["args"]):
@@ -865,12 +1104,53 @@ class Translator:
                     return True
         return isinstance(st, ast.Pass)
 
+    def log_effects(self, st, rest, env, frame):
+        """spec `log_effects`: a logging / print call still EVALUATES its arguments — `{key.hex()}` inside an f-string raises
+        AttributeError for a `None` key whatever the log level. The values are dropped, the exceptions are not; a local that
+        passed `.hex()` is known not to be None afterwards."""
+        exprs = []
+        for a in list(st.value.args) + [k.value for k in st.value.keywords]:
+            for n in ast.walk(a):
+                if isinstance(n, ast.FormattedValue):
+                    exprs.append(n.value)
+            if not isinstance(a, (ast.JoinedStr, ast.Constant)):
+                exprs.append(a)
+        env = dict(env)
+        saved, self.hoists = self.hoists, []
+        narrowed = []
+        try:
+            for e in exprs:
+                if (isinstance(e, ast.Call) and isinstance(e.func, ast.Attribute) and e.func.attr == "hex" and not e.args
+                        and isinstance(e.func.value, ast.Name) and e.func.value.id in env and env[e.func.value.id].typ == "Option Bytes"):
+                    x = env[e.func.value.id]
+                    t = self.hoist(f"PyRt.attrE {x.term}", "Bytes", e)
+                    narrowed.append((e.func.value, V(t, "Bytes")))
+                    env[e.func.value.id] = V(t, "Bytes")
+                else:
+                    self.expr(e, env)
+            hs = self.hoists
+        finally:
+            self.hoists = saved
+
+        def inner():
+            env2, lines = env, []
+            for tg, v in narrowed:
+                env2, line = self.bind(tg, v, env2, st)
+                lines.append(line)
+            return "".join(l + "\n" for l in lines) + self.block(rest, env2, frame)
+        return self.with_hoists(hs, env, frame, inner)
+
     def block(self, stmts, env, frame):
         if not stmts:
             return frame.fall(env)
         st, rest = stmts[0], stmts[1:]
+        if (self.spec.get("log_effects") and isinstance(st, ast.Expr) and isinstance(st.value, ast.Call)
+                and (self.key(st.value.func) == "print" or self.key(st.value.func).startswith("logging."))):
+            return self.log_effects(st, rest, env, frame)
         if self.dropped(st):
             return self.block(rest, env, frame)
+        if any(ast.unparse(st).startswith(p) for p in self.spec.get("drop_stmts", ())):
+            return self.block(rest, env, frame)          # the spec declares this statement outside the model (it only feeds logging)
         m = getattr(self, "s_" + type(st).__name__, None)
         if m is None:
             self.bad(st, f"statement form {type(st).__name__} is outside the subset")
@@ -906,6 +1186,8 @@ class Translator:
                 if not v.typ.startswith("Fmt:"):
                     self.bad(node, f"a struct format local assigned {v.typ}")
                 decl = None
+            if target.id in self.spec.get("maybe_locals", {}):
+                decl = "Option " + ty_arg(self.spec["maybe_locals"][target.id]) if " " in self.spec["maybe_locals"][target.id] else "Option " + self.spec["maybe_locals"][target.id]
             if decl is not None:
                 v = V(self.coerce(v, decl, node), decl, v.nn and decl == "Int")
             if v.typ in ("NoneType", "EmptyDict", "EmptyList"):
@@ -922,12 +1204,27 @@ class Translator:
             _, ln, typ, mode = self.places[k]
             if mode == "r":
                 self.bad(node, "write to a place the spec declares read-only")
+            if k in self.pairdicts and v.typ == "EmptyDict":
+                d = self.e_Constant(ast.parse(self.pairdicts[k], mode="eval").body, env)
+                v = V(f"({d.term}, {d.term})", typ)
             term = self.coerce(v, typ, node)
+            if mode == "s":
+                cur = env["__st"]
+                env["__st"] = V("st'", cur.typ)
+                return env, f"let st' : {ty(cur.typ)} := {{ {cur.term} with {lname(ln)} := {term} }}"
             env[("place", k)] = V(lname(ln) + "'", typ, v.nn and typ == "Int")
             return env, f"let {lname(ln)}' : {ty(typ)} := {term}"
         self.bad(node, "assignment target is neither a local name nor a place of the spec")
 
     def s_Assign(self, st, rest, env, frame):
+        if len(st.targets) > 1 and all(isinstance(t, ast.Name) for t in st.targets):
+            # `a = b = e`: `e` is evaluated once, then bound left to right
+            first = ast.Assign(targets=[st.targets[0]], value=st.value)
+            more = [ast.Assign(targets=[t], value=ast.Name(id=st.targets[0].id, ctx=ast.Load())) for t in st.targets[1:]]
+            for n in [first] + more:
+                ast.copy_location(n, st)
+                ast.fix_missing_locations(n)
+            return self.block([first] + more + list(rest), env, frame)
         if len(st.targets) != 1:
             self.bad(st, "chained assignment")
         if self.key(st.targets[0]) in self.spec.get("ignore_writes", ()):
@@ -938,6 +1235,16 @@ class Translator:
                 return self.block(rest, env, frame)
             self.bad(st, "write to an ignored attribute whose right-hand side is not a name, constant or empty display")
         tg = st.targets[0]
+        if (isinstance(tg, ast.Subscript) and self.key(tg) not in self.places and self.key(tg.value) in self.places
+                and not isinstance(tg.slice, ast.Slice)):
+            return self.place_item_assign(st, tg, rest, env, frame)
+        if isinstance(st.value, ast.Call) and self.key(st.value.func) in self.state_calls and isinstance(tg, ast.Name):
+            def k(v, env1):
+                if v is None:
+                    self.bad(st, "the result of a procedure is assigned")
+                env2, line = self.bind(tg, v, env1, st)
+                return line + "\n" + self.block(rest, env2, frame)
+            return self.state_call(st.value, env, frame, k)
         if isinstance(tg, ast.Subscript) and isinstance(tg.value, ast.Name) and self.key(tg) not in self.places:
             return self.subscript_assign(st, tg, rest, env, frame)
         if isinstance(st.value, ast.Name) and st.value.id in self.owned:
@@ -945,12 +1252,102 @@ class Translator:
         v, hs = self.eval(st.value, env)
         if isinstance(tg, ast.Name):
             fresh = (isinstance(st.value, ast.Call) and self.key(st.value.func) in ("bytearray", "copy.deepcopy")
-                     and v.typ == "Bytes")
+                     and v.typ == "Bytes")          # (also `bytearray()`)
             (self.owned.add if fresh else self.owned.discard)(tg.id)
 
         def inner():
             env2, line = self.bind(tg, v, env, st)
             return line + "\n" + self.block(rest, env2, frame)
+        return self.with_hoists(hs, env, frame, inner)
+
+    def place_item_assign(self, st, tg, rest, env, frame):
+        """`<place>[k] = v` where the place is a dict: a bool-keyed pair (`pairdicts`) or a table"""
+        pk = self.key(tg.value)
+        saved, self.hoists = self.hoists, []
+        try:
+            v = self.expr(st.value, env)                   # Python: the right-hand side, then the container, then the key
+            cur = self.read_place(pk, env, st)
+            k = self.expr(tg.slice, env)
+            hs = self.hoists
+        finally:
+            self.hoists = saved
+        if pk in self.pairdicts:
+            vt = unparen(split_prod(cur.typ)[0])
+            if k.typ != "Bool":
+                self.bad(st, f"key of type {k.typ} for a bool-keyed dict place")
+            new = lambda: V(f"(if {k.term} then ({cur.term}.1, {self.coerce(v, vt, st)}) else ({self.coerce(v, vt, st)}, {cur.term}.2))", cur.typ)
+        elif cur.typ.startswith("Table "):
+            kt, vt = split_table(cur.typ)
+            new = lambda: V(f"(PyRt.tableSet {cur.term} {self.coerce(k, kt, st)} {self.coerce(v, vt, st)})", cur.typ)
+        else:
+            self.bad(st, f"item assignment on a place of type {cur.typ}")
+
+        def inner():
+            env2, line = self.bind(tg.value, new(), env, st)
+            return line + "\n" + self.block(rest, env2, frame)
+        return self.with_hoists(hs, env, frame, inner)
+
+    def state_call(self, call, env, frame, k):
+        """a call that passes the attribute state on (spec `state_calls`); `k(value or None, env)` renders what follows"""
+        c = self.state_calls[self.key(call.func)]
+        if call.keywords or len(call.args) != len(c["args"]):
+            self.bad(call, f"call of `{self.key(call.func)}` that does not give exactly the {len(c['args'])} positional arguments of its spec entry")
+        saved, self.hoists = self.hoists, []
+        try:
+            args = [self.coerce(self.expr(a, env), t, call) for a, t in zip(call.args, c["args"])]
+            hs = self.hoists
+        finally:
+            self.hoists = saved
+        ret = c.get("ret", "None")
+        place_node = lambda key: ast.parse(key, mode="eval").body
+
+        def value(name):
+            return None if ret == "None" else V(name, ret)
+
+        def inner():
+            self.raises = True
+            vn = self.fresh("py_v") if ret != "None" else "_"
+            if c["kind"] == "shared":
+                rp = [self.read_place(pk, env, call).term for pk in c.get("rplaces", [])]
+                cur = env["__st"]
+                term = " ".join([c["lean"]] + list(c.get("exts", [])) + args + rp + [cur.term])
+                env2 = dict(env)
+                env2["__st"] = V("st'", cur.typ)
+                return (f"PyRt.tryR ({term}) (fun py_e st' => {frame.raise_('py_e', env2)}) (fun {vn} st' =>\n"
+                        + ind(k(value(vn), env2)) + ")")
+            if c["kind"] == "extshared":
+                # a method over the same state record that is an external here: `lean st args : Res St ret`
+                cur = env["__st"]
+                term = " ".join([c["lean"], cur.term] + args)
+                env2 = dict(env)
+                env2["__st"] = V("st'", cur.typ)
+                return (f"PyRt.tryR ({term}) (fun py_e st' => {frame.raise_('py_e', env2)}) (fun {vn} st' =>\n"
+                        + ind(k(value(vn), env2)) + ")")
+            if c["kind"] == "method":
+                recv = self.read_place(c["recv"], env, call, raw=True)
+                if not recv.typ.startswith("Option "):
+                    self.bad(call, "a method receiver place whose type is not Option")
+                xt = elem_type(recv.typ)
+                d = self.fresh("py_d")
+                env2, line = self.bind(place_node(c["recv"]), V(d + "'", xt), env, call)
+                term = " ".join([c["lean"], d] + args)
+                return (f"PyRt.tryE (PyRt.attrE {recv.term}) (fun py_e => {frame.raise_('py_e', env)}) (fun {d} =>\n"
+                        + ind(f"PyRt.tryR ({term}) (fun py_e {d}' =>\n" + ind(line + "\n" + frame.raise_('py_e', env2), 4)
+                              + f") (fun {vn} {d}' =>\n" + ind(line + "\n" + k(value(vn), env2)) + ")") + ")")
+            if c["kind"] == "ext":
+                rp = [self.read_place(pk, env, call, raw=True).term for pk in c.get("reads", [])]
+                w = self.fresh("py_w")
+                env2, lines = env, []
+                n = len(c["writes"])
+                for j, pk in enumerate(c["writes"]):
+                    proj = w if n == 1 else (w + ".2" * j + (".1" if j < n - 1 else ""))
+                    env2, line = self.bind(place_node(pk), V(proj, self.places[pk][2]), env2, call)
+                    lines.append(line)
+                pre = "".join(l + "\n" for l in lines)
+                term = " ".join([c["lean"]] + args + rp)
+                return (f"PyRt.tryR ({term}) (fun py_e {w} =>\n" + ind(pre + frame.raise_('py_e', env2), 4)
+                        + f") (fun {vn} {w} =>\n" + ind(pre + k(value(vn), env2)) + ")")
+            self.bad(call, f"state call entry of kind {c['kind']!r}")
         return self.with_hoists(hs, env, frame, inner)
 
     def table_set(self, st, name_node, key_node, val_node, rest, env, frame, key_first=False):
@@ -1023,6 +1420,9 @@ class Translator:
     def s_Return(self, st, rest, env, frame):
         if st.value is None:
             return frame.ret(V("()", "NoneType"), env, st)
+        if isinstance(st.value, ast.Call) and self.key(st.value.func) in self.state_calls:
+            return self.state_call(st.value, env, frame,
+                                   lambda v, env1: frame.ret(v if v is not None else V("()", "NoneType"), env1, st))
         val = st.value
         if (isinstance(val, ast.Tuple) and len(val.elts) == 2 and isinstance(val.elts[1], ast.Name)
                 and val.elts[1].id in self.spec.get("objects", ())):
@@ -1044,7 +1444,7 @@ class Translator:
             self.bad(st, "try with else/finally or without a handler")
         hs = []
         for h in st.handlers:
-            if isinstance(h.type, ast.Name) and h.type.id == "Exception":
+            if h.type is None or (isinstance(h.type, ast.Name) and h.type.id == "Exception"):
                 hs.append(("*", list(h.body)))                        # every exception of the subset is an Exception
                 continue
             if not (isinstance(h.type, ast.Name) and h.type.id in self.EXC):
@@ -1064,6 +1464,21 @@ class Translator:
 
     def s_Expr(self, st, rest, env, frame):
         c0 = st.value
+        if (isinstance(c0, ast.Call) and isinstance(c0.func, ast.Attribute) and c0.func.attr == "update" and len(c0.args) == 1
+                and not c0.keywords and isinstance(c0.func.value, ast.Name) and c0.func.value.id in env
+                and env[c0.func.value.id].typ == "Acc"):
+            # a hash / HMAC object of `cryptography`: `update` appends to what `finalize` will digest
+            x = env[c0.func.value.id]
+            v, hs = self.eval(c0.args[0], env)
+            if v.typ != "Bytes":
+                self.bad(st, f"update() with {v.typ}")
+
+            def inner():
+                env2, line = self.bind(c0.func.value, V(f"(PyRt.Acc.update {x.term} {v.term})", "Acc"), env, st)
+                return line + "\n" + self.block(rest, env2, frame)
+            return self.with_hoists(hs, env, frame, inner)
+        if isinstance(c0, ast.Call) and self.key(c0.func) in self.state_calls:
+            return self.state_call(c0, env, frame, lambda v, env1: self.block(rest, env1, frame))
         if (isinstance(c0, ast.Call) and isinstance(c0.func, ast.Attribute) and c0.func.attr == "append" and len(c0.args) == 1
                 and not c0.keywords and isinstance(c0.func.value, ast.Name) and c0.func.value.id in env
                 and env[c0.func.value.id].typ.startswith("List ") and c0.func.value.id in self.spec.get("locals", {})):
@@ -1076,6 +1491,22 @@ class Translator:
                 env2, line = self.bind(c0.func.value, new, env, st)
                 return line + "\n" + self.block(rest, env2, frame)
             return self.with_hoists(hs, env, frame, inner)
+        if (isinstance(c0, ast.Call) and isinstance(c0.func, ast.Attribute) and c0.func.attr == "clear" and not c0.args and not c0.keywords
+                and self.key(c0.func.value) in self.places and self.places[self.key(c0.func.value)][2].startswith("List ")):
+            env2, line = self.bind(c0.func.value, V("[]", "EmptyList"), env, st)
+            return line + "\n" + self.block(rest, env2, frame)
+        if (isinstance(c0, ast.Call) and isinstance(c0.func, ast.Attribute) and c0.func.attr == "extend" and len(c0.args) == 1
+                and not c0.keywords and self.key(c0.func.value) in self.places and self.places[self.key(c0.func.value)][2].startswith("List ")):
+            pk = self.key(c0.func.value)
+            v, hs = self.eval(c0.args[0], env)
+
+            def inner_ext():
+                cur = self.read_place(pk, env, st)
+                typ = self.places[pk][2]
+                new = V(f"({cur.term} ++ {self.coerce(v, typ, st)})", typ)
+                env2, line = self.bind(c0.func.value, new, env, st)
+                return line + "\n" + self.block(rest, env2, frame)
+            return self.with_hoists(hs, env, frame, inner_ext)
         ap = self.append_call(st)
         if ap is not None:
             pk, arg = ap
@@ -1094,6 +1525,22 @@ class Translator:
                 and isinstance(c0.args[0], ast.Dict) and len(c0.args[0].keys) == 1 and c0.args[0].keys[0] is not None):
             d = c0.args[0]
             return self.table_set(st, c0.func.value, d.keys[0], d.values[0], rest, env, frame, key_first=True)
+        if (isinstance(c0, ast.Call) and isinstance(c0.func, ast.Attribute) and c0.func.attr == "append" and len(c0.args) == 1
+                and not c0.keywords and isinstance(c0.func.value, ast.Name) and c0.func.value.id in self.owned
+                and c0.func.value.id in env and env[c0.func.value.id].typ == "Bytes"):
+            # `bytearray.append(int)`: ValueError unless in range(256)
+            x = env[c0.func.value.id]
+            v, hs = self.eval(c0.args[0], env)
+            if not is_int(v.typ):
+                self.bad(st, f"bytearray.append() of {v.typ}")
+            saved, self.hoists = self.hoists, list(hs)
+            nv = V(self.hoist(f"PyRt.appendByteE {x.term} {self.to_int(v)}", "Bytes", st), "Bytes")
+            hs, self.hoists = self.hoists, saved
+
+            def inner_ab():
+                env2, line = self.bind(c0.func.value, nv, env, st)
+                return line + "\n" + self.block(rest, env2, frame)
+            return self.with_hoists(hs, env, frame, inner_ab)
         k = self.key(st)
         if k in self.spec.get("drop_calls", ()):
             return self.block(rest, env, frame)              # the spec declares this call outside the model
@@ -1102,6 +1549,11 @@ class Translator:
                 and not c.keywords and isinstance(c.func.value, ast.Name) and c.func.value.id in self.owned
                 and c.func.value.id in env):
             v, hs = self.eval(c.args[0], env)
+            if v.typ == "Option Bytes":
+                # `extend(None)` is a TypeError
+                saved, self.hoists = self.hoists, list(hs)
+                v = V(self.hoist(f"PyRt.someE PyRt.Err.type {v.term}", "Bytes", st), "Bytes")
+                hs, self.hoists = self.hoists, saved
             if v.typ != "Bytes":
                 self.bad(st, f"extend() with {v.typ}")
             x = env[c.func.value.id]
@@ -1117,7 +1569,70 @@ class Translator:
             return f"let acts' := {old} ++ [{self.actions[k]}]\n" + self.block(rest, env2, frame)
         self.bad(st, "expression statement (a call with effects the spec does not name)")
 
+    def as_condition(self, node, env):
+        """the test of an `if`: only its truth matters, so an int operand of and/or/not stands for `!= 0`"""
+        if isinstance(node, ast.BoolOp):
+            new = ast.BoolOp(op=node.op, values=[self.as_condition(v, env) for v in node.values])
+        elif isinstance(node, ast.UnaryOp) and isinstance(node.op, ast.Not):
+            new = ast.UnaryOp(op=node.op, operand=self.as_condition(node.operand, env))
+        else:
+            saved = (self.hoists, self.tmp)
+            self.hoists = []
+            try:
+                t = self.expr(node, env).typ
+            except Untranslatable:
+                t = None
+            finally:
+                self.hoists, self.tmp = saved
+            if t == "Option Bool":
+                new = ast.Compare(left=node, ops=[ast.Eq()], comparators=[ast.Constant(value=True)])      # None and False are falsy
+            elif t is None or not is_int(t):
+                return node
+            else:
+                new = ast.Compare(left=node, ops=[ast.NotEq()], comparators=[ast.Constant(value=0)])
+        ast.copy_location(new, node)
+        ast.fix_missing_locations(new)
+        return new
+
     def s_If(self, st, rest, env, frame):
+        t = st.test
+        if (isinstance(t, ast.Compare) and len(t.ops) == 1 and isinstance(t.ops[0], ast.Is) and isinstance(t.left, ast.Name)
+                and isinstance(t.comparators[0], ast.Constant) and t.comparators[0].value is None and not st.orelse
+                and len(st.body) == 1 and isinstance(st.body[0], ast.Assign) and len(st.body[0].targets) == 1
+                and isinstance(st.body[0].targets[0], ast.Name) and st.body[0].targets[0].id == t.left.id
+                and t.left.id in env and env[t.left.id].typ.startswith("Option ")
+                and t.left.id not in self.spec.get("locals", {}) and t.left.id not in self.spec.get("maybe_locals", {})):
+            # `if x is None: x = e`: afterwards x is not None — it becomes a value of the inner type
+            x = env[t.left.id]
+            inner = elem_type(x.typ)
+            v = self.strict(lambda: self.expr(st.body[0].value, env))
+            if v.typ == inner:
+                env2, line = self.bind(t.left, V(f"(Option.getD {x.term} {v.term})", inner), env, st)
+                return line + "\n" + self.block(rest, env2, frame)
+        if isinstance(st.test, (ast.BoolOp, ast.UnaryOp, ast.Name, ast.Attribute)):
+            cond = self.as_condition(st.test, env)
+            if cond is not st.test:
+                st = ast.copy_location(ast.If(test=cond, body=st.body, orelse=st.orelse), st)
+        if isinstance(st.test, ast.BoolOp):
+            mark = (self.tmp, self.raises)
+            try:
+                self.eval(st.test, env)
+            except Untranslatable as e:
+                if "where Python may skip it" not in e.reason:
+                    raise
+                # `if A and B: X else: Y` is `if A: (if B: X else: Y) else: Y` (likewise `or`): B is evaluated only where
+                # Python evaluates it
+                self.tmp, self.raises = mark
+                first, more = st.test.values[0], st.test.values[1:]
+                later = more[0] if len(more) == 1 else ast.BoolOp(op=st.test.op, values=more)
+                inner_if = ast.If(test=later, body=st.body, orelse=st.orelse)
+                new = (ast.If(test=first, body=[inner_if], orelse=st.orelse) if isinstance(st.test.op, ast.And)
+                       else ast.If(test=first, body=st.body, orelse=[inner_if]))
+                for n in (inner_if, new):
+                    ast.copy_location(n, st)
+                    ast.fix_missing_locations(n)
+                return self.block([new] + list(rest), env, frame)
+            self.tmp, self.raises = mark
         c, hs = self.eval(st.test, env)
         if is_int(c.typ):
             c = V(f"(decide ({c.term} ≠ 0))", "Bool")                 # an int is true iff it is not 0
@@ -1141,9 +1656,16 @@ class Translator:
                 for t in (s.targets if isinstance(s, ast.Assign) else [s.target]):
                     if isinstance(t, ast.Subscript) and isinstance(t.value, ast.Name) and self.key(t) not in self.places:
                         t = t.value
+                    if isinstance(t, ast.Subscript) and self.key(t) not in self.places and self.key(t.value) in self.places:
+                        t = t.value
                     key = t.id if isinstance(t, ast.Name) else ("place", self.key(t))
+                    if isinstance(key, tuple) and key[1] in self.places and self.places[key[1]][3] == "s":
+                        key = "__st"
                     if key not in acc:
                         acc.append(key)
+                if (isinstance(s, ast.Assign) and isinstance(s.value, ast.Call) and self.key(s.value.func) in self.state_calls
+                        and self.state_key(s.value) not in acc):
+                    acc.append(self.state_key(s.value))
             elif isinstance(s, ast.If):
                 self.assigned(s.body, acc)
                 self.assigned(s.orelse, acc)
@@ -1154,13 +1676,35 @@ class Translator:
                 self.assigned(s.body, acc)
             elif isinstance(s, ast.Expr) and self.key(s) in self.actions and "__acts" not in acc:
                 acc.append("__acts")
+            elif isinstance(s, ast.Expr) and isinstance(s.value, ast.Call) and self.key(s.value.func) in self.state_calls:
+                if self.state_key(s.value) not in acc:
+                    acc.append(self.state_key(s.value))
+            elif isinstance(s, ast.Try):
+                self.assigned(s.body, acc)
+                for h in s.handlers:
+                    self.assigned(h.body, acc)
             elif (isinstance(s, ast.Expr) and isinstance(s.value, ast.Call) and isinstance(s.value.func, ast.Attribute)
                   and s.value.func.attr in ("extend", "append", "update") and isinstance(s.value.func.value, ast.Name)):
                 if s.value.func.value.id not in acc:
                     acc.append(s.value.func.value.id)
-            elif self.append_call(s) is not None and ("place", self.append_call(s)[0]) not in acc:
-                acc.append(("place", self.append_call(s)[0]))
+            elif (isinstance(s, ast.Expr) and isinstance(s.value, ast.Call) and isinstance(s.value.func, ast.Attribute)
+                  and s.value.func.attr in ("clear", "extend") and self.key(s.value.func.value) in self.places):
+                pk = self.key(s.value.func.value)
+                key = "__st" if self.places[pk][3] == "s" else ("place", pk)
+                if key not in acc:
+                    acc.append(key)
+            elif self.append_call(s) is not None:
+                pk = self.append_call(s)[0]
+                key = "__st" if self.places[pk][3] == "s" else ("place", pk)
+                if key not in acc:
+                    acc.append(key)
         return acc
+
+    def state_key(self, call):
+        """what a state call assigns (for joins and loop states): the state record"""
+        if self.state is None:
+            self.bad(call, "a state call in a definition whose spec has no `state` record")
+        return "__st"
 
     def try_join(self, c, body, orelse, env, node):
         """both branches only assign: `let vars := if c then … else …`; None when a branch can leave or raise"""
@@ -1251,6 +1795,12 @@ class Translator:
             if x.typ != "Bytes" or len(ns) != 2:
                 self.bad(st, "enumerate() of anything but bytes, or not unpacked into two names")
             return f"(PyRt.enumFrom 0 {x.term})", [(ns[0], "Nat", True), (ns[1], "Nat", True)], hs
+        if isinstance(it, ast.Call) and self.key(it.func) == "zip" and len(it.args) == 2 and not it.keywords:
+            x, hs = self.eval(it, env)
+            ns = names(tg)
+            if x.typ != "List (Nat × Nat)" or len(ns) != 2:
+                self.bad(st, "zip() of anything but two byte strings, or not unpacked into two names")
+            return x.term, [(ns[0], "Nat", True), (ns[1], "Nat", True)], hs
         x, hs = self.eval(it, env)
         if x.typ.startswith("Table ") and isinstance(tg, ast.Name):
             kt = split_table(x.typ)[0]
@@ -1316,22 +1866,46 @@ class Translator:
                         yield from own(c.body)
         has_ret = any(isinstance(x, ast.Break) for x in own(st.body))
         for n in ast.walk(ast.Module(body=st.body, type_ignores=[])):
-            if isinstance(n, ast.Continue):
-                self.bad(n, "continue inside a loop body")
             if isinstance(n, (ast.For, ast.While)) and any(isinstance(m, ast.Return) for m in ast.walk(n)):
                 self.bad(n, "return inside a nested loop")
             has_ret = has_ret or isinstance(n, ast.Return)
         step = has_ret or fuel is not None
         mod = [m for m in self.assigned(st.body, []) if m in env]      # loop state; other assigned names are loop-local
+        # attribute state that must survive an exception raised in a later round: such a loop is left through `.ret`
+        # with what the enclosing frame makes of the exception and the state at that moment
+        keeps = (self.spec.get("raise_state") is not False
+                 and any(m in ("__st", "__acts") or isinstance(m, tuple) for m in mod))
         envl = dict(env)
-        for _ in range(3):
+        if fuel is not None and isinstance(st.test, ast.Constant) and st.test.value is True:
+            # `while True:` is only left through `break` (return, an exception): a name the body only STORES, that is new in
+            # the loop and bound at every `break`, is bound after the loop. It joins the loop state with a default value
+            # no path can read (the body never loads it; after the loop it comes from the round that broke out).
+            loads = {x.id for x in ast.walk(ast.Module(body=st.body, type_ignores=[])) if isinstance(x, ast.Name) and isinstance(x.ctx, ast.Load)}
+            cands = [n for n in self.assigned(st.body, []) if isinstance(n, str) and not n.startswith("__") and n not in env and n not in loads]
+            if cands:
+                saved0 = (self.tmp, self.raises, dict(self.seen_types))
+                envb = dict(envl)
+                for m in mod:
+                    envb[m] = V(self.state_name(m), envl[m].typ, envl[m].nn)
+                lf0 = LoopFrame(self, mod, frame, keeps)
+                self.block(st.body, envb, lf0)
+                self.tmp, self.raises, self.seen_types = saved0
+                brks = [lf0.ends[j] for j in lf0.brk_idx]
+                for n in cands:
+                    if brks and all(n in e for e in brks):
+                        t = brks[0][n].typ
+                        for e in brks[1:]:
+                            t = self.join_type(t, e[n].typ, st)
+                        envl[n] = V(f"(default : {ty(t)})", t)
+                        mod.append(n)
+        for _ in range(4):
             # types / signs of the state at the head of the body must be what the body leaves (loop invariant)
             envb = dict(envl)
             for n, t, nn in bound:
                 envb[n] = V(lname(n), t, nn)
             for m in mod:
                 envb[m] = V(self.state_name(m), envl[m].typ, envl[m].nn)
-            lf = LoopFrame(self, mod, frame if step else None)
+            lf = LoopFrame(self, mod, frame if step else None, keeps)
             saved = (self.tmp, self.raises)
             self.raises = False
             cond = None
@@ -1341,6 +1915,10 @@ class Translator:
                     self.bad(st.test, f"condition of type {cond.typ}")
             body = self.block(st.body, envb, lf)
             body_raises = self.raises
+            if keeps and body_raises and not step:
+                step = True
+                self.tmp, self.raises = saved
+                continue
             stable = all(self.join_type(envl[m].typ, t, st) == envl[m].typ and (not envl[m].nn or n)
                          for m, (t, n) in zip(mod, lf.result_types()))
             if stable:
@@ -1373,6 +1951,9 @@ class Translator:
             loop = f"PyRt.whileS {fuel} {init} {cf} {fn}"
         else:
             fn = f"(fun (py_s : {sty}) {binder} =>\n{ind(unpack + pre + body, 4)})"
+            if self.spec.get("split_loops"):
+                rty = (f"Except PyRt.Err (PyRt.Step ({sty}) (\0RTYPE\0))" if step else (f"Except PyRt.Err ({sty})" if body_raises else sty))
+                fn = self.split_loop(st, env, sty, binder, unpack + pre + body, [b[0] for b in bound], mod, rty)
             loop = mk(init, fn, step)
         if step:
             return (f"PyRt.loopS ({loop}) (fun py_e => {frame.raise_('py_e', env)}) (fun py_r => py_r) (fun py_s =>\n"
@@ -1383,9 +1964,42 @@ class Translator:
                     + after() + ")")
         return (f"let py_s : {sty} := List.foldl {fn} {init} {lst}\n" + unpack + self.block(rest, env2, frame))
 
+    def split_loop(self, st, env, sty, binder, body, bound_names, mod, rty):
+        """spec `split_loops`: the round of a pure `for` fold becomes a definition of its own (`<name>.loop<k>`), with the names
+        it uses from outside as parameters — the main definition stays small and lemmas can name the round"""
+        import re
+        self.nloops = getattr(self, "nloops", 0) + 1
+        nm = f"{self.name}.loop{self.nloops}"
+        inner = set(bound_names) | {self.state_name(m) for m in mod} | {"py_s", "py_i"}
+        if re.search(r"\bpy_t_\d+\b", body):
+            defined = set(re.findall(r"fun (py_t_\d+) =>", body))
+            used = set(re.findall(r"\bpy_t_\d+\b", body))
+            if used - defined:
+                self.bad(st, "a loop body that uses a temporary of the enclosing statement (cannot be split off)")
+        params = []
+        for n, t in self.spec.get("externals", []):
+            if re.search(r"(?<![\w.'«])" + re.escape(n) + r"(?![\w'»])", body):
+                params.append((n, RawType(t)))
+        seen = {n for n, _ in params}
+        for k_, v in env.items():
+            if not isinstance(v, V) or not re.fullmatch(r"«?[A-Za-z_][\w]*»?'?", v.term):
+                continue
+            if v.term in seen or v.term in inner:
+                continue
+            if re.search(r"(?<![\w.'«])" + re.escape(v.term) + r"(?![\w'»])", body):
+                params.append((v.term, v.typ))
+                seen.add(v.term)
+        sig = " ".join(f"({n} : {ty(t)})" for n, t in params)
+        tp = "".join(f"{{{t} : Type}} " for t in self.spec.get("tparams", ()))
+        self.aux_defs = getattr(self, "aux_defs", [])
+        self.aux_defs.append(f"def {nm} {tp}{sig} (py_s : {sty}) {binder} : {rty} :=\n{ind(body)}\n")
+        return "(" + " ".join([nm] + [n for n, _ in params]) + ")"
+
     def state_name(self, m):
         if m == "__acts":
             return "acts'"
+        if m == "__st":
+            return "st'"
         if isinstance(m, tuple):
             return lname(self.places[m[1]][1]) + "'"
         return lname(m)
@@ -1472,8 +2086,9 @@ class JoinFrame(Frame):
 class LoopFrame(Frame):
     """a loop body: ends in the state tuple (wrapped in `.ok` when the body can raise; `.ok (.next …)` in a loop that can
     be left by `return` or is a `while`: there `return` ends in `.ok (.ret <the definition's result>)`)"""
-    def __init__(self, tr, mod, parent=None):
-        self.tr, self.mod, self.ends, self.parent = tr, mod, [], parent
+    def __init__(self, tr, mod, parent=None, keeps=False):
+        self.tr, self.mod, self.ends, self.parent, self.keeps = tr, mod, [], parent, keeps
+        self.brk_idx = []
 
     def fall(self, env):
         self.ends.append(dict(env))
@@ -1484,13 +2099,17 @@ class LoopFrame(Frame):
             self.tr.bad(node, "return inside a loop body")
         return f".ok (.ret {self.parent.ret(val, env, node)})"
 
-    def cont(self, env, node): self.tr.bad(node, "continue inside a loop body")
-    def raise_(self, e, env): return f".error {e}"
+    def cont(self, env, node): return self.fall(env)          # `continue`: the round ends here, with the state as it is
+    def raise_(self, e, env):
+        if self.keeps and self.parent is not None:
+            return f".ok (.ret {self.parent.raise_(e, env)})"
+        return f".error {e}"
 
     def brk(self, env, node):
         if self.parent is None:
             self.tr.bad(node, "break inside a loop body")
         self.ends.append(dict(env))
+        self.brk_idx.append(len(self.ends) - 1)
         return f"\0K{id(self)}_{len(self.ends) - 1}\0"
 
     def result_types(self):
@@ -1521,6 +2140,10 @@ class TopFrame(Frame):
 
     def state(self, env):
         tr = self.tr
+        if tr.state is not None:
+            if tr.outs or tr.actions:
+                tr.bad(None, "a definition over a state record with result locals or actions")
+            return env["__st"].term
         fields = []
         for k, (_, ln, typ, mode) in tr.places.items():
             if mode != "r":
@@ -1671,7 +2294,7 @@ def translate(func, spec):
     for attempt in (True, False):
         tr = Translator(fname, spec)
         text = _translate(tr, func, spec, attempt)
-        if tr.raises == attempt:
+        if tr.raises == attempt or spec.get("always_res"):
             return text
     return text
 
@@ -1695,9 +2318,13 @@ def _translate(tr, func, spec, assume_raises):
                 # a parameter that is never used is fine; a used one shows up as an unknown name
                 pass
     tr.assigned_anywhere = {n.id for n in ast.walk(func) if isinstance(n, ast.Name) and isinstance(n.ctx, ast.Store)}
-    tr.reserved = {p[1] for p in tr.places.values()} | {p[1] + "'" for p in tr.places.values()}
+    tr.reserved = ({p[1] for p in tr.places.values() if p[3] != "s"} | {p[1] + "'" for p in tr.places.values() if p[3] != "s"}
+                   | ({tr.state["param"]} if tr.state is not None else set()))
     env = {}
-    binders = [(n, t) for n, t in spec.get("externals", [])]         # functions outside the model: parameters
+    binders = [(n, RawType(t)) for n, t in spec.get("externals", [])]         # functions outside the model: parameters
+    for n, t in spec.get("maybe_locals", {}).items():
+        ot = "Option " + (ty_arg(t) if " " in t else t)
+        env[n] = V(f"(none : {ty(ot)})", ot)
     for n, t in params:
         if not lname_ok(n):
             tr.bad(func, f"parameter `{n}` clashes with a name of the emitted text")
@@ -1705,13 +2332,19 @@ def _translate(tr, func, spec, assume_raises):
         binders.append((lname(n), t))
     place_binders = []
     for k, (_, ln, typ, mode) in tr.places.items():
+        if mode == "s":
+            continue
         v = V(lname(ln), typ)
         env[("place", k)] = v
         place_binders.append((k, lname(ln), typ))
+    if tr.state is not None:
+        env["__st"] = V(tr.state["param"], tr.state["type"])
+    elif any(p[3] == "s" for p in tr.places.values()):
+        tr.bad(func, "places of mode \"s\" in a spec without a `state` record")
     if tr.actions:
         env["__acts"] = V(f"([] : List {spec['action_type']})", f"List {spec['action_type']}")
     tr.raises_final = assume_raises
-    stateful = any(p[3] != "r" for p in tr.places.values()) or bool(tr.outs) or bool(tr.actions)
+    stateful = any(p[3] != "r" for p in tr.places.values()) or bool(tr.outs) or bool(tr.actions) or tr.state is not None
     kind, body = ("stmts", func.body) if not fragment else select(func, sel, fname)
     if kind == "expr":
         tr.hoists = []
@@ -1727,14 +2360,15 @@ def _translate(tr, func, spec, assume_raises):
         top = TopFrame(tr, fragment)
         text = tr.block(list(body), env, top)
         vt = tr.value_type
+        stn = f"{tr.name}.St" if tr.state is None else ty_arg(tr.state["type"])
         if stateful:
-            plain = f"{tr.name}.St" if vt == "Unit" else f"({ty_arg(vt)} × {tr.name}.St)"
-            rtype = ((f"Except PyRt.Err {plain}" if spec.get("raise_state") is False else f"PyRt.Res {tr.name}.St {ty_arg(vt)}")
-                     if tr.raises_final else (f"{tr.name}.St" if vt == "Unit" else f"{ty_arg(vt)} × {tr.name}.St"))
+            plain = stn if vt == "Unit" else f"({ty_arg(vt)} × {stn})"
+            rtype = ((f"Except PyRt.Err {plain}" if spec.get("raise_state") is False else f"PyRt.Res {stn} {ty_arg(vt)}")
+                     if tr.raises_final else (stn if vt == "Unit" else f"{ty_arg(vt)} × {stn}"))
         else:
             rtype = f"Except PyRt.Err {ty_arg(vt)}" if tr.raises_final else vt
     out = []
-    if stateful and kind != "expr":
+    if stateful and kind != "expr" and tr.state is None:
         fields = [f"  {ln} : {ty(typ)}" for _, ln, typ, mode in tr.places.values() if mode != "r"]
         fields += [f"  {n} : {ty(t)}" for n, t in tr.outs]
         if tr.actions:
@@ -1748,7 +2382,20 @@ def _translate(tr, func, spec, assume_raises):
         used = re.search(r"(?<![\w.'«])" + re.escape(ln) + r"(?![\w'»]| :=)", text) is not None
         if tr.places[k][3] == "r" or k in tr.init_used or used:
             binders.append((ln, typ))
-    sig = " ".join(f"({n} : {ty(t)})" for n, t in binders)
+    if tr.state is not None:
+        binders.append((tr.state["param"], tr.state["type"]))
+    sig = "".join(f"{{{t} : Type}} " for t in spec.get("tparams", ())) + " ".join(f"({n} : {ty(t)})" for n, t in binders)
+    # (a loop body may have been rendered several times while the types of the loop state settled: keep the rounds in use)
+    aux = list(getattr(tr, "aux_defs", []))
+    used, frontier = [], [text]
+    while frontier:
+        cur = frontier.pop()
+        for a in aux:
+            nm_ = a.split()[1]
+            if a not in used and (nm_ + " ") in cur.replace(")", " ").replace("\n", " "):
+                used.append(a)
+                frontier.append(a.split(":=", 1)[1])
+    out.extend(a.replace("\0RTYPE\0", rtype) for a in aux if a in used)
     out.append(f"def {tr.name} {sig} : {rtype} :=\n{ind(text)}\n")
     return "\n".join(out)
 
